@@ -372,8 +372,29 @@ type UintArg struct {
 	i uint
 }
 
+// isYangInteger reports whether str is an integer-value of the YANG ABNF:
+// optional '-' (if allowed), then "0" or a non-zero digit followed by digits.
+// No '+', no leading zeros, no hex/octal/binary forms, no underscores.
+func isYangInteger(str string, allowNegative bool) bool {
+	if allowNegative && strings.HasPrefix(str, "-") {
+		str = str[1:]
+	}
+	if len(str) == 0 || (len(str) > 1 && str[0] == '0') {
+		return false
+	}
+	for i := 0; i < len(str); i++ {
+		if str[i] < '0' || str[i] > '9' {
+			return false
+		}
+	}
+	return true
+}
+
 func (a *UintArg) Parse() error {
-	i, e := strconv.ParseUint(string(a.arg), 0, 32)
+	if !isYangInteger(string(a.arg), false) {
+		return &strconv.NumError{Func: "ParseUint", Num: string(a.arg), Err: strconv.ErrSyntax}
+	}
+	i, e := strconv.ParseUint(string(a.arg), 10, 32)
 	if e != nil {
 		return e
 	}
@@ -387,7 +408,10 @@ type IntArg struct {
 }
 
 func (a *IntArg) Parse() error {
-	i, e := strconv.ParseInt(string(a.arg), 0, 32)
+	if !isYangInteger(string(a.arg), true) {
+		return &strconv.NumError{Func: "ParseInt", Num: string(a.arg), Err: strconv.ErrSyntax}
+	}
+	i, e := strconv.ParseInt(string(a.arg), 10, 32)
 	if e != nil {
 		return e
 	}
@@ -555,6 +579,10 @@ func (a *MaxValueArg) Parse() error {
 		e := i.Parse()
 		if e != nil {
 			return e
+		}
+		if i.i == 0 {
+			// max-value-arg = unbounded-keyword / positive-integer-value
+			return errors.New("invalid argument: " + string(a.arg) + " must be positive")
 		}
 	}
 	a.i = i
